@@ -1350,12 +1350,15 @@ class Context:
         # Share globals with VM (don't copy - allows nested eval to modify globals)
         vm.globals = self._globals
 
-        # Store current VM for timeout checking in RegExp constructor
+        # Store current VM for timeout checking in RegExp constructor (an exposed host
+        # function may call eval() while an evaluation is in progress: that one goes on
+        # afterwards with its own interpreter)
+        outer_vm = self._current_vm
         self._current_vm = vm
         try:
             result = vm.run(compiled)
         finally:
-            self._current_vm = None
+            self._current_vm = outer_vm
 
         try:
             return self._to_python(result)
